@@ -48,7 +48,8 @@ THEOREMS = [
     "clusterUpdate_is_clusterMove",
 ]
 
-GATE_THEOREMS = ["cluster_gate", "classification_meaning"]
+GATE_THEOREMS = ["generic_cluster_gate"]
+SYM_THEOREMS = ["sym_full_iff", "sym_diag_iff", "isConstant_iff"]
 
 RULE = ("synthetic valid strings (1..6 spins quick / 1..9 thorough; per world line 0 / exactly 1 / many constant ops, idle "
         "spins, multi-edges, constant two-spin ops, three-spin ops, single-site symmetric and field ops, random rotation in "
@@ -61,7 +62,9 @@ RULE = ("synthetic valid strings (1..6 spins quick / 1..9 thorough; per world li
         "at least one operator (move) / at least two clusters (single) / at least two clusters and a changed configuration "
         "(exact); distinct = distinct (before, after, draws). Kind gate: generic Qmc samplers with asymmetric single-site field terms "
         "(with / without a zero matrix element, all four constructors), symmetric two-site diagonal terms and constant single-site "
-        "terms registered with the asymmetric ones first / in the middle / last / at random: should_do_cluster_update() and "
+        "terms, asymmetric two-site full matrices and two-/three-site diagonal tables whose single asymmetric pair lies in each "
+        "quarter of the index range in turn (all entries positive where ops live), registered with the asymmetric ones first / "
+        "in the middle / last / at random; the harness judges symmetry over ALL entries: should_do_cluster_update() and "
         "cluster_update() must follow the gate (refuse iff any term is asymmetric), then diagonal/loop/cluster/free steps and "
         "timesteps: no op on a zero matrix element, every cluster step that runs goes through the full move oracle and models.")
 
@@ -72,16 +75,20 @@ def main(ck):
     if ck.lake_build(LEAN_TARGETS):
         ck.audit("QmcProps.C09", ["Qmc.C09." + t for t in THEOREMS])
     # the gate of the generic sampler (Qmc::cluster_update refuses / timestep skips the cluster update as soon as ANY
-    # registered term breaks the Ising symmetry, for every order of the adds) is proved in C04's file; C09's last clause
-    # ("clusters holding a symmetry-breaking op are never flipped") rests on it for `Qmc`, so it is audited here as well.
-    # Tied to qmc_runner.rs by the `gate` cases of the harness (oracle + driver).
-    if ck.lake_build(["QmcProps.C04"]):
-        save = ck.prop
-        try:
+    # registered term is not classified symmetric, for every order of the adds): C09's last clause ("clusters holding a
+    # symmetry-breaking op are never flipped") rests on it for `Qmc`. Same statement as Qmc.C04.cluster_gate, re-derived in
+    # QmcProofs/ClusterGate.lean from the flag lemmas so that this check does not depend on the rest of C04's file; what
+    # "classified symmetric" / "constant" mean for the matrices is C16. Tied to qmc_runner.rs by the `gate` cases.
+    save = ck.prop
+    try:
+        if ck.lake_build(["QmcProofs.ClusterGate"]):
             ck.prop = save + "gate"
-            ck.audit("QmcProps.C04", ["Qmc.C04." + t for t in GATE_THEOREMS])
-        finally:
-            ck.prop = save
+            ck.audit("QmcProofs.ClusterGate", ["Qmc." + t for t in GATE_THEOREMS])
+        if ck.lake_build(["QmcProps.C16"]):
+            ck.prop = save + "sym"
+            ck.audit("QmcProps.C16", ["Qmc.C16." + t for t in SYM_THEOREMS])
+    finally:
+        ck.prop = save
     if ck.cargo_build(BINS):
         cases = ck.harness("c09", ["synthetic"])
         ck.correspond("synthetic-strings", "drv_c09", cases)
